@@ -1,5 +1,6 @@
 import PromModel.Suites.ApiJsonSuite
 import PromProofs.ApiJson
+import PromProofs.ApiJsonRoundtrip
 /-
   C51 — Query API JSON encodes values losslessly.  Property theorems only; lemmas are in
   PromProofs/ApiJson.lean.  Model: PromModel/Api/Json.lean.
@@ -44,5 +45,23 @@ theorem boundaries_code_bijective :
     verbatim) is inverted by JSON string unescaping, for every byte string. -/
 theorem escape_unescape (s rest : Bytes) : pString (writeString s ++ rest) = some (s, rest) :=
   pString_writeString s rest
+
+/-- Histograms: under the trusted `strconv` hypothesis for the floats involved (`HistOK`: count, sum and
+    the fields of the non-empty buckets are written as quote-free text that parses back to the same
+    float), decoding what `MarshalHistogram` wrote yields the same count and sum and exactly the
+    non-empty buckets, in order, with the same bounds and the same lower/upper inclusiveness. -/
+theorem histogram_json_roundtrip (pf : Bytes → Option FVal) (h : Hist) (rest : Bytes) (hok : HistOK pf h) :
+    pHist pf (marshalHistogram h ++ rest) = some (origHist h, rest) :=
+  pHist_marshalHistogram pf h rest hok
+
+/-- the hypothesis is satisfiable with the executable `parseF`: a histogram with a zero bucket,
+    an empty bucket (dropped) and a custom bucket reaching +Inf -/
+example : let one : FTok := ⟨0x3ff0000000000000, [1], 0⟩
+    let half : FTok := ⟨0x3fe0000000000000, [5], -1⟩
+    let nhalf : FTok := ⟨0xbfe0000000000000, [5], -1⟩
+    let zero : FTok := ⟨0, [0], 0⟩
+    let inf : FTok := ⟨0x7ff0000000000000, [], 0⟩
+    let h : Hist := ⟨one, nhalf, [⟨nhalf, half, true, true, one⟩, ⟨half, one, false, true, zero⟩, ⟨one, inf, false, true, half⟩]⟩
+    pHist parseF (marshalHistogram h) = some (origHist h, []) := by decide +kernel
 
 end Prom.C51
